@@ -89,7 +89,7 @@ func (u *unionOneAndNullCodec) Skip(r *ReadBuf) error {
 }
 
 func (u *unionOneAndNullCodec) New(r *ReadBuf) unsafe.Pointer {
-	return nil
+	return u.codec.New(r)
 }
 
 func (u *unionOneAndNullCodec) Omit(p unsafe.Pointer) bool {
@@ -147,7 +147,7 @@ func (u *unionNullString) Skip(r *ReadBuf) error {
 }
 
 func (u *unionNullString) New(r *ReadBuf) unsafe.Pointer {
-	return nil
+	return u.codec.New(r)
 }
 
 func (u *unionNullString) Omit(p unsafe.Pointer) bool {
